@@ -156,3 +156,8 @@ Definition adjust_stream_size (s : ostream) (offset : N) : ostream :=
   else
     let s2 := if (tellp s1 <? Z.of_N offset)%Z then pad_to s1 offset else s1 in
     seekp s2 offset.
+
+(* one planned write: adjust_stream_size( stream, position ); stream.write( bytes ) *)
+Definition exec_write (os : ostream) (w : N * bytes) : ostream :=
+  write (adjust_stream_size os (fst w)) (snd w).
+Definition exec_plan (os : ostream) (p : list (N * bytes)) : ostream := fold_left exec_write p os.
